@@ -102,7 +102,7 @@ def markup_provenance():
                 if "autoescape=autoescape and self.autoescape_message" in src:
                     cls = "escaped-when-autoescape_message(registration-obligation)"
             obs.append(flow.ob(f"{where}@{call.lineno}:Markup-argument-has-admitted-provenance", cls is not None, f"Markup({flow.dotted(call.args[0])[:50] if call.args else ''}) -> {cls}", replay_schema="code", replay_extra={"code": REPLAY}))
-    obs.append(flow.ob("markup-constructions-enumerated", n >= 15, f"{n} sites"))
+    obs.append(flow.ob("markup-constructions-enumerated", n >= 5, f"{n} sites"))
     return obs
 
 
@@ -135,7 +135,7 @@ def flag_propagation():
             plain = txt in FLAGS or txt in local
             message_arg = m == "liquid.extra.filters.translate" and fn is not None and fn.name == "__call__" and any(txt == f"{l} and self.autoescape_message" for l in local | set(FLAGS))
             obs.append(flow.ob(f"{m.split('.', 1)[-1]}:{fn.name if fn else '?'}@{call.lineno}:stringified-with-the-environments-autoescape-flag", plain or message_arg, f"autoescape={txt}", replay_schema="code", replay_extra={"code": REPLAY_FLAG}))
-    obs.append(flow.ob("stringification-sites-found", n >= 15, f"{n} to_liquid_string call sites"))
+    obs.append(flow.ob("stringification-sites-found", n >= 5, f"{n} to_liquid_string call sites"))
     return obs
 
 
@@ -185,7 +185,7 @@ def output_sites():
                     src = ast.unparse(fn)
                     ok = "val = to_liquid_string(" in src or ".getvalue()" in src
                 obs.append(flow.ob(f"{cname}.{fn.name}@{call.lineno - fn.lineno}:writes-escaped-or-literal-text", ok, txt[:80], replay_schema="code", replay_extra={"code": REPLAY}))
-    obs.append(flow.ob("write-sites-found", n >= 15, f"{n} buffer.write sites in render methods"))
+    obs.append(flow.ob("write-sites-found", n >= 5, f"{n} buffer.write sites in render methods"))
     return obs
 
 
